@@ -95,7 +95,7 @@ def run_case(case, stats: Counter):
     if st != at:
         viols.append({"key": classify(spec, case, sync, asy, "result"),
                       "msg": f"{head}: stdlib {st} vs asyncstdlib {at}", "detail": {"expected": st, "got": at}})
-    if asy.inputs_before != {k: v for k, v in (asy.inputs_after or {}).items() if k != "mutated_list"} \
+    if asy.inputs_before != {k: v for k, v in (asy.inputs_after or {}).items() if k not in ("mutated_list", "elements")} \
             or (asy.inputs_after or {}).get("mutated_list"):
         if sync.inputs_before == sync.inputs_after:
             viols.append({"key": classify(spec, case, sync, asy, "mutated"),
